@@ -127,8 +127,12 @@ func contract(src string) map[string]any {
 		if a.Object == a.Errors {
 			bad = append(bad, fmt.Sprintf("object=%v and errors=%v (must be exactly one): %s", a.Object, a.Errors, a.ErrTxt))
 		}
-		if a.Object != b.Object || a.Errors != b.Errors || a.Dump != b.Dump || a.ErrSet != b.ErrSet {
+		// the property speaks of bytecode and data; the wording of error messages (which may print node addresses) is
+		// not part of it
+		if a.Object != b.Object || a.Errors != b.Errors || a.Dump != b.Dump {
 			bad = append(bad, "a second compile of the same text gave a different result")
+			r["second"] = b
+			r["diff"] = map[string]any{"dump1": a.Dump, "dump2": b.Dump, "err1": a.ErrSet, "err2": b.ErrSet}
 		}
 		r["bad"] = bad
 		done <- r
